@@ -149,7 +149,7 @@ def sn0d_case(S, rng, n=40):
 
 
 # ---- a small catalogue of runs per tier -------------------------------------------------------------------
-def catalogue(rng, tier, dims=("homogeneous", "spatial_1D", "spatial_2D"), confs=None, cn=False, n0=4, n1=3, n2=1, early_vacuum=False):
+def catalogue(rng, tier, dims=("homogeneous", "spatial_1D", "spatial_2D"), confs=None, cn=False, n0=4, n1=3, n2=1, early_vacuum=False, late_vacuum=False, wide_depression=False):
     """yield dict(label, S, dt, nsteps, error) for randomly drawn configurations that keep <= 10000 steps
     (so that the spatial models save every step)"""
     out = []
@@ -181,8 +181,17 @@ def catalogue(rng, tier, dims=("homogeneous", "spatial_1D", "spatial_2D"), confs
         if conf == "VISF" and early_vacuum:
             # strong evaporation while the bottom of the vial is still warm: the top is the coldest / most supercooled region
             over["VISF"] = {"t_vac_start": 0.1, "t_vac_duration": 0.5, "kappa": 0.05}
+        if conf == "VISF" and late_vacuum:
+            # the vacuum window opens only after nucleation: evaporation acts during the solidification stage
+            over["VISF"] = {"t_vac_start": 0.75, "t_vac_duration": rng.choice([0.1, 0.2]), "kappa": 0.05}
+            prog.update(start=10, rate=2.0 / 60, holds=[])
         if rng.random() < 0.4:
             over.setdefault("solution", {})["solid_fraction"] = rng.choice([0.02, 0.05, 0.1])
+        if wide_depression:
+            # concentrated solution (depression > 1 K) in a tall, strongly cooled vial: at nucleation only part of the vial is
+            # supercooled and some grid point lies between T_eq_l and T_m
+            over.setdefault("solution", {})["solid_fraction"] = 0.2
+            prog.update(start=rng.choice([10, 15]), rate=rng.choice([1.0, 2.0]) / 60, holds=[]); K = 400; h = 0.06
         cnT = (cn if isinstance(cn, (int, float)) and not isinstance(cn, bool) else rng.choice([-4, -6, -8])) if cn else None
         S = make(dim=dim, conf=conf, height=h, diameter=d, K=K, prog=prog, cnTemp=cnT, extra=over)
         if tt is None:
